@@ -7,7 +7,11 @@ equal the source semantics.  Marker bookkeeping (structural facts about the emit
 assertl node of the debug build is either the `unwrap_left` fail node or carries a CMR that resolves
 through debug_symbols(); the marker is entered with the constant tag `false`; the set of (kind, text) the
 markers resolve to equals the set of tracked calls the program text contains; distinct tracked call sites
-have distinct CMRs.  The span -> text kernel is covered by the Kani harnesses (kani/, C14 span_*).
+have distinct CMRs.  Marker values: for every dbg!/unwrap_left/unwrap_right marker the solver proves that, on every
+successful run that reaches it, the marker node's argument equals the book-layout bits of the source-level value
+of the call's argument; on solver-completed witnesses the real TrackedCall::map_value is applied to those bits and
+must return the value the book layout reads from them.  The span -> text kernel is covered by the Kani harnesses
+(kani/, C14 span_*).
 """
 import glob, json, os, random
 
@@ -45,6 +49,64 @@ def debug_programs():
         ExprStmt(Match(JetCall("lt_8", [Var("y", U8), Var("z", U8)], BOOL), Arm("false", Panic(UNIT)), Arm("true", Block([ExprStmt(Assert(JetCall("eq_8", [Var("w", U8), Wit("E", U8)], BOOL)))])))),
     ])
     out.append(("all-tracked-kinds", Program([], main)))
+    return out
+
+
+def value_programs(tier):
+    """what the markers of dbg!/unwrap_left/unwrap_right receive (last clause of C14): one program per type and
+    position - main level, function called twice, match arms, computed arguments"""
+    out = []
+    tys = c01.types_depth1() + c01.types_depth2() + c01.types_depth3() + [U(1), U(8), U(64), BOOL, U(256)]
+    tys = [t for t in tys if width(t) > 0]
+    for i, ty in enumerate(tys):
+        fr = Fresh("p")
+        # main level + a function called twice with different arguments
+        show = FnDef("show", [("x", ty)], ty, Block([], Dbg(Var("x", ty))))
+        main = Block([Let("a", ty, Dbg(Wit("A", ty))),
+                      Let("b", ty, Call(show, [Var("a", ty)])),
+                      Let("c", ty, Call(show, [Wit("C", ty)]))] +
+                     observe(Var("b", ty), ty, "EXPB", fr) + observe(Var("c", ty), ty, "EXPC", fr))
+        out.append(("val/%02d-%s/main+fn-twice" % (i, ty_str(ty)), Program([show], main)))
+        # in match arms (one arm reached per run), argument is the arm's own binding
+        main = Block([Let("r", ty, Match(Wit("S", EITHER(ty, ty)),
+                                         Arm("left", Dbg(Var("l", ty)), "l", ty),
+                                         Arm("right", Block([Let("t", ty, Var("r0", ty))], Dbg(Var("t", ty))), "r0", ty)))] +
+                     observe(Var("r", ty), ty, "EXPR", fr))
+        out.append(("val/%02d-%s/match-arms" % (i, ty_str(ty)), Program([], main)))
+    # unwrap_left / unwrap_right: the marker receives the whole Either
+    pairs = [(U(8), U(16)), (U(16), U(8)), (UNIT, U(8)), (U(8), UNIT), (BOOL, OPT(U(8))), (OPT(U(8)), TUP(U(8), BOOL)),
+             (EITHER(U(8), U(16)), U(32)), (ARR(U(8), 3), LIST(U(8), 4)), (U(1), U(1)), (TUP(U(4), U(4)), U(8))]
+    for i, (lt, rt) in enumerate(pairs):
+        et = EITHER(lt, rt)
+        fr = Fresh("p")
+        stmts = []
+        if width(lt):
+            stmts += [Let("x", lt, UnwrapLeft(Wit("A", et)))] + observe(Var("x", lt), lt, "EXPX", fr)
+        if width(rt):
+            stmts += [Let("y", rt, UnwrapRight(Wit("B", et)))] + observe(Var("y", rt), rt, "EXPY", fr)
+        out.append(("val/unwrap-%02d-%s" % (i, ty_str(et)), Program([], Block(stmts))))
+        # computed argument: built in place from a witness of the payload type
+        stmts = []
+        if width(lt):
+            stmts += [Let("x", lt, UnwrapLeft(LeftE(Wit("A", lt), rt)))] + observe(Var("x", lt), lt, "EXPX", fr)
+        if width(rt):
+            stmts += [Let("y", rt, UnwrapRight(Match(Wit("S", BOOL), Arm("false", RightE(Wit("B", rt), lt)), Arm("true", Wit("C", et)))))] + observe(Var("y", rt), rt, "EXPY", fr)
+        out.append(("val/unwrap-computed-%02d-%s" % (i, ty_str(et)), Program([], Block(stmts))))
+    # dbg! of computed values
+    U8 = U(8)
+    fr = Fresh("p")
+    t1 = TUP(U8, OPT(U(16)), EITHER(BOOL, U8))
+    main = Block([Let("v", t1, Dbg(TupleE([Wit("A", U8), SomeE(Wit("B", U(16))), RightE(Wit("C", U8), BOOL)])))] + observe(Var("v", t1), t1, "EXP", fr))
+    out.append(("val/computed-tuple", Program([], main)))
+    t2 = ARR(OPT(U8), 3)
+    main = Block([Let("v", t2, Dbg(ArrayE([SomeE(Wit("A", U8)), NoneE(OPT(U8)), Wit("B", OPT(U8))], OPT(U8))))] + observe(Var("v", t2), t2, "EXP", fr))
+    out.append(("val/computed-array", Program([], main)))
+    t3 = LIST(U8, 8)
+    main = Block([Let("v", t3, Dbg(ListE([Wit("A", U8), Lit(U8, 7), Wit("B", U8)], U8, 8)))] + observe(Var("v", t3), t3, "EXP", fr))
+    out.append(("val/computed-list", Program([], main)))
+    t4 = TUP(BOOL, U8)
+    main = Block([Let("v", t4, Dbg(JetCall("add_8", [Wit("A", U8), Dbg(Wit("B", U8))], t4)))] + observe(Var("v", t4), t4, "EXP", fr))
+    out.append(("val/nested-dbg-jet-result", Program([], main)))
     return out
 
 
@@ -92,6 +154,8 @@ def cases(tier, seed):
         out.append(E.Case("dbg/" + name, prog, check_markers=True, validate=True, tags={"family": "debug-specific"}))
         out.append(E.Case("dbg/" + name + "/one-line", prog, text=one_line(program_text(prog)), check_markers=True, validate=True,
                           tags={"family": "debug-specific", "layout": "single line"}))
+    for name, prog in value_programs(tier):
+        out.append(E.Case("dbg/" + name, prog, check_markers=True, validate=False, debug_modes=(False, True), tags={"family": "marker-values"}))
     out += example_cases()
     return out
 
@@ -105,15 +169,20 @@ def main():
         return {"shipped_examples_neutral": sum(1 for r in ex if r["status"] == "held"), "shipped_examples": len(ex),
                 "marker_nodes_checked": sum(r.get("marker_nodes", 0) for r in results),
                 "programs_with_marker_set_compared": sum(1 for r in results if r["status"] == "held" and r.get("dag_markers") is not None),
-                "tracked_kinds_seen": sorted(set(k for r in results for k, _ in (r.get("dag_markers") or [])))}
+                "tracked_kinds_seen": sorted(set(k for r in results for k, _ in (r.get("dag_markers") or []))),
+                "marker_value_entries_decided": sum(r.get("marker_value_entries", 0) for r in results if r["status"] == "held"),
+                "marker_value_queries": sum(r.get("marker_value_queries", 0) for r in results),
+                "real_map_value_reconstructions_compared": sum(r.get("marker_reconstructions", 0) for r in results)}
 
     return suite.run_property(
         "C14", cs, kani=True,
-        technique="SMT (z3, QF_UFBV) equivalence of the debug build and the plain build of the emitted Simplicity DAG for all witnesses (jets uninterpreted for the shipped examples); structural comparison of marker CMRs with debug_symbols() and with the tracked calls of the program text",
+        technique="SMT (z3, QF_UFBV) equivalence of the debug build and the plain build of the emitted Simplicity DAG for all witnesses (jets uninterpreted for the shipped examples); structural comparison of marker CMRs with debug_symbols() and with the tracked calls of the program text; SMT query per program that every dbg!/unwrap_left/unwrap_right marker reached by a successful run receives the book-layout bits of the source-level argument value (all witnesses), with the real TrackedCall::map_value run on solver-completed witnesses",
         functions=["compile.rs: Scope::with_debug_symbol, Call::compile", "debug.rs: CallTracker::track_call/get_cmr/with_file, DebugSymbols::insert/get (through the public API)",
                    "ast.rs: track_call sites", "named.rs: assertl_drop, bit"],
-        bounds={"programs": "slice of families F01/F08/F09/F10 (quick) or all of their quick-tier members (thorough), 4 debug-specific programs x 2 layouts, all %d shipped examples" % len(glob.glob('/repo/examples/*.simf'))},
-        outside=["Value::reconstruct of dbg!/unwrap_left/unwrap_right arguments (Kani internal compiler error on Value <-> StructuralValue, DESIGN 1)",
+        bounds={"programs": "slice of families F01/F08/F09/F10 (quick) or all of their quick-tier members (thorough), 4 debug-specific programs x 2 layouts, all %d shipped examples" % len(glob.glob('/repo/examples/*.simf')),
+                "marker_values": "130 programs: dbg! at 56 types of depth <= 3 (main level, function called twice, match arms), unwrap_left/unwrap_right at 10 Either types (witness and computed arguments), dbg! of computed tuple/array/list/jet results"},
+        outside=["Value::reconstruct for ALL values of a type (Kani internal compiler error on Value <-> StructuralValue, DESIGN 1): the real map_value is run on solver-completed successful witnesses only (2 per program)",
+                 "marker values on runs that fail (the value a marker receives after an earlier failure point is not defined by the source semantics)",
                  "that pest attaches the span of the call expression (pest internals)", "remove_excess_whitespace (compared modulo whitespace)"],
         assumptions=["z3 4.8.12 is sound on QF_UFBV", "marker texts are compared modulo whitespace"],
         min_validated=10,
